@@ -34,7 +34,13 @@ REQUIRED_THEOREMS = [
     "extract_time_range_sorted", "copy_apply_castfail", "valid_session_accepted", "valid_sessions_accepted",
     "valid_history_stored", "runBoth_of_allAccepted", "mapFrames_items", "mapFrames_getSlice", "mapFrames_viewGet",
     "read_world", "items_world", "slice_world", "view_field_world", "world_read_returns_appended",
+    # gap round (Props/C20Coll.lean)
+    "from_collection_world", "from_collection_read", "gatherAll_spec", "bisect_local",
+    "extract_time_range_any_times", "extract_time_range_any_times_world", "from_collection_succeeds",
+    "world_slice_returns_appended", "world_view_read_returns_appended", "view_items_world",
 ]
+# gap round: `from_collection` end to end (world level), `extract_time_range` boundaries on unsorted times
+EXTRA_PROP_FILES = ["C20Coll"]
 RULE = ("(1) adaptive random operation sequences of length 5-40 over newField/setField/newStore/setMode/"
         "start_writing/append/end_writing/clear/read/items/slice/extract_time_range/extract_field/view_field/"
         "copy/apply/from_fields/from_collection/direct frame writes, drawn from 8 field profiles (scalar, vector, "
@@ -929,6 +935,19 @@ def bisect_leg(ctx):
             n_uns_same += ans[1] == real
             if not all(0 <= v <= len(ts) for v in real + list(ans[1])):
                 ctx.disagree("bisect", {"times": ts, "x": x}, ans[1], real, "searchsorted index outside [0, n]")
+            else:
+                # theorems bisect_local / extract_time_range_any_times: on ANY list the answers are crossing points
+                # (element before `left` is < x and the one at `left` is not; element before `right` is <= x and
+                # the one at `right` is > x).  Required of numpy's answer and of the model's, whichever loop is used.
+                nn = len(ts)
+                for who, (lft, rgt) in (("numpy", real), ("model", ans[1])):
+                    okc = ((lft == 0 or ts[lft - 1] < x) and (lft == nn or not ts[lft] < x) and
+                           (rgt == 0 or ts[rgt - 1] <= x) and (rgt == nn or x < ts[rgt]))
+                    ctx.hist("bisect-crossing", f"{who}: crossing point" if okc else f"{who}: NOT a crossing point")
+                    if not okc:
+                        ctx.disagree("bisect", {"times": ts, "x": x}, ans[1], real,
+                                     f"searchsorted on unsorted times: answer of {who} is not a crossing point "
+                                     "(theorem bisect_local)")
     ctx.note(f"searchsorted on unsorted lists: the model equals numpy {np.__version__} on {n_uns_same}/{n_uns} "
              "(informative, not a tie; sorted lists are a hard tie)")
 
